@@ -1,5 +1,4 @@
 import TarpcModel.Lemmas.ServerTable
-import TarpcModel.Lemmas.ServerInv
 import TarpcModel.Lemmas.DelayQIdle
 /-!
 Bridge between the server model and the completeness results for the timer wheel
@@ -249,24 +248,85 @@ theorem basePollNext_idle_timers (hf : ClampFits) {now : Nat} (hn : now < panicF
 
 /-! ### the `Requests` stream going idle (no limiter) -/
 
+theorem ensureLoop_tm : ∀ (fuel : Nat) (s : St), (ensureLoop fuel s).1.timers = s.timers := by
+  intro fuel
+  induction fuel with
+  | zero => intro s; rfl
+  | succ n ih =>
+    intro s
+    unfold Server.ensureLoop
+    have h1 := tReady_timers s
+    generalize tReady s = p at h1 ⊢
+    obtain ⟨s1, r⟩ := p
+    cases r with
+    | ready => exact h1
+    | err => exact h1
+    | pending =>
+      simp only
+      have h2 := tFlush_timers s1
+      generalize tFlush s1 = p at h2 ⊢
+      obtain ⟨s2, f⟩ := p
+      cases f with
+      | pending => exact h2.trans h1
+      | err => exact h2.trans h1
+      | ready => exact (ih s2).trans (h2.trans h1)
+
+theorem ensureOnce_tm (s : St) : (ensureOnce s).1.timers = s.timers := by
+  unfold Server.ensureOnce
+  have h1 := tReady_timers s
+  generalize tReady s = p at h1 ⊢
+  obtain ⟨s1, r⟩ := p
+  cases r with
+  | ready => exact h1
+  | err => exact h1
+  | pending =>
+    simp only
+    have h2 := tFlush_timers s1
+    generalize tFlush s1 = p at h2 ⊢
+    obtain ⟨s2, f⟩ := p
+    cases f with
+    | pending => exact h2.trans h1
+    | err => exact h2.trans h1
+    | ready =>
+      simp only
+      have h3 := tReady_timers s2
+      generalize tReady s2 = p at h3 ⊢
+      obtain ⟨s3, r2⟩ := p
+      cases r2 <;> exact h3.trans (h2.trans h1)
+
+theorem ensureWriteable_tm (s : St) : (ensureWriteable s).1.timers = s.timers := by
+  unfold Server.ensureWriteable; split
+  · exact ensureLoop_tm _ _
+  · exact ensureOnce_tm _
+
+theorem flushArm_tm (s : St) (rc : Bool) : (flushArm s rc).1.timers = s.timers := by
+  unfold Server.flushArm
+  have h1 := tFlush_timers s
+  generalize tFlush s = p at h1 ⊢
+  obtain ⟨s1, r⟩ := p
+  cases r with
+  | pending => exact h1
+  | err => exact h1
+  | ready => simp only; split <;> exact h1
+
 /-- a write pump that ends `Pending` / `None` (nothing was sent) has not touched the timers -/
 theorem pumpWrite_idle_timers (s : St) (rc : Bool)
     (h : (pumpWrite s rc).2 = .pending ∨ (pumpWrite s rc).2 = .none) : (pumpWrite s rc).1.timers = s.timers := by
   unfold Server.pumpWrite at h ⊢
-  have he := ensureWriteable_timers s
+  have he := ensureWriteable_tm s
   revert he h
   generalize ensureWriteable s = p
   intro h he
   obtain ⟨s1, r⟩ := p
   dsimp only at he
   cases r with
-  | pending => simp only [flushArm_timers]; exact he
+  | pending => simp only [flushArm_tm]; exact he
   | err a => exact he
   | spin => exact he
   | ready =>
     dsimp only at h ⊢
     cases hq : s1.respQ with
-    | nil => simp only [flushArm_timers]; exact he
+    | nil => simp only [flushArm_tm]; exact he
     | cons x rest =>
       obtain ⟨id, res⟩ := x
       rw [hq] at h
